@@ -21,14 +21,119 @@ FEATS = [
 ]
 
 
+# plain auxiliaries on frames that a running conditional auxiliary of a frame above suspends, transitions taken meanwhile
+FEATS_SUSP = [
+    dict(p_aux=0.6, naux=(3, 5), p_condaux=0.7, p_shared_aux=0.6, nframes=(4, 8), p_nest=0.8, ngo=(1, 2), p_uncond_go=0.1,
+         p_stop_bid_mid=0.3, ticks=(12, 22), nplan=(4, 9)),
+]
+
+
+def several_houses_case(rng):
+    """two or three houses, each defining an auxiliary framer `helper`; in one house a moot framer whose frame carries
+    `aux helper` is cloned -- reared at run time or built with `aux ... as` -- under a frame entered at some tick.  The
+    clone's auxiliary is the `helper` of the clone's own house."""
+    import random
+    nh = rng.choice([2, 2, 3])
+    houses = ["h%d" % i for i in range(nh)]
+    hx = rng.choice(houses)
+    how = rng.choice(["rear", "rear", "aux-mine", "aux-named"])
+    k = rng.randint(1, 4)
+    lines = []
+    for h in houses:
+        lines += ["house %s" % h, ""]
+        helper = ["  framer helper be aux first p1", "    frame p1"] + \
+                 ['      do vf rec with tag "%s.helper.p1.%s" at %s' % (h, c, c) for c in ("enter", "recur", "exit")] + [""]
+        hf = rng.random() < 0.5
+        if hf:
+            lines += helper
+        if h == hx:
+            lines += ["  framer boss be active first setup", "    frame setup"]
+            if how == "rear":
+                lines.append("      rear carrier as mine be aux in frame hold")
+            lines += ["      go next if recurred >= %d" % k, "    frame hold", '      do vf rec with tag "%s.boss.hold.enter" at enter' % h,
+                      '      do vf rec with tag "%s.boss.hold.exit" at exit' % h]
+            if how == "aux-mine":
+                lines.append("      aux carrier as mine")
+            elif how == "aux-named":
+                lines.append("      aux carrier as cr")
+            lines += ["      go next if elapsed >= 0.5", "    frame finish", "      bid stop all", ""]
+            lines += ["  framer carrier be moot first c1", "    frame c1",
+                      '      do vf rec with tag "%s.carrier.c1.enter" at enter' % h, "      aux helper", ""]
+        else:
+            lines += ["  framer keeper be active first keep", "    frame keep", "      go next if elapsed >= 1.0", "    frame kend",
+                      "      bid stop all", ""]
+        if not hf:
+            lines += helper
+    return {"text": "\n".join(lines) + "\n", "houses": houses, "hx": hx, "how": how, "last": hx == houses[-1]}
+
+
+def check_several_houses(ctx, case):
+    from vf.flo import runner
+    text = case["text"]
+    res = runner.run_text(text, maxticks=40)
+    if not res.built:
+        ctx.inconclusive_case("program with several houses did not build: %s" % (res.build_msgs[-1:],))
+        return
+    if res.exc is not None:
+        ctx.fail("several-houses/run-raised/%s" % type(res.exc).__name__, "run raised %r" % (res.exc,), {"program": text})
+        return
+    tags = [e["tag"] for e in res.trace]
+    ctx.event(len(tags))
+    hx = case["hx"]
+    ctx.hit("several_houses_" + case["how"])
+    ctx.hit("clone_in_%s_house" % ("the_last" if case["last"] else "an_earlier"))
+    wit = {"program": text, "events": tags, "case": {k: v for k, v in case.items() if k != "text"}}
+    ok = True
+    foreign = [t for t in tags if ".helper." in t and not t.startswith(hx + ".")]
+    if foreign:
+        ok = False
+        ctx.fail("several-houses/aux-of-another-house-ran", "the auxiliary framer of house %s ran (%s) although no frame of its house "
+                 "carries it; the clone lives in house %s" % (foreign[0].split(".")[0], foreign[:3], hx), wit)
+    if "%s.carrier.c1.enter" % hx not in tags:
+        ctx.inconclusive_case("the clone's frame was never entered")
+        return
+    i = tags.index("%s.carrier.c1.enter" % hx)
+    ctx.hit("clone_aux_activations_checked")
+    if tags[i + 1:i + 2] != ["%s.helper.p1.enter" % hx]:
+        ok = False
+        ctx.fail("several-houses/aux-of-the-clone-not-started", "house %s: after the clone's frame c1 was entered its auxiliary helper "
+                 "(of the same house) was not entered next: %s" % (hx, tags[i + 1:i + 3]), wit)
+    # ... and lives as long as its main frame: exited before the hosting frame's exit actions, no recur after
+    if "%s.boss.hold.exit" % hx in tags:
+        j = tags.index("%s.boss.hold.exit" % hx)
+        own = "%s.helper.p1." % hx
+        if tags[j - 1:j] != [own + "exit"] or any(t.startswith(own) for t in tags[j:]):
+            ok = False
+            ctx.fail("several-houses/aux-of-the-clone-outlives-its-frame", "house %s: helper events around the exit of the hosting "
+                     "frame: %s" % (hx, tags[max(0, j - 2):j + 3]), wit)
+    ctx.case(text, nontrivial=True, sample={"program": text, "how": case["how"]} if ctx.hits.get("several_houses_" + case["how"], 0) <= 1 else None)
+    if ok:
+        ctx.check(True, "ok")
+
+
 def worker(ctx, job):
+    import random
     from vf.flo import monitors
+    for seed in job.get("houses", []):
+        check_several_houses(ctx, several_houses_case(random.Random(seed)))
+    if job.get("susp"):
+        common.flo_worker(ctx, {"items": job["susp"]}, FEATS_SUSP, [monitors.aux_monitor, monitors.bracket_monitor],
+                          nontrivial=lambda d: d.get("aux_activations", 0) >= 3, sem_flags=("condaux_truncated", "transition_while_suspended",
+                                                                                            "exit_all_while_suspended"))
     common.flo_worker(ctx, job, FEATS, [monitors.aux_monitor, monitors.bracket_monitor],
                       nontrivial=lambda d: d.get("aux_activations", 0) >= 3 and sum(v for k, v in d.items() if k.startswith("done_need")) >= 1,
                       sem_flags=("aux_ownership_refused", "aux_entered"))
 
 
 def run(ctx):
-    common.flo_run(ctx, FEATS, 400, 24000, {
-        "aux_activations": 100, "aux_runs_checked": 100, "aux_recurs_checked": 100, "aux_exits_checked": 100,
-        "done_need_any": 10, "done_need_all": 10, "done_need_named": 10, "shared_original_reused": 10})
+    from vf.flo import gen
+    n = ctx.pick(400, 24000)
+    items = [(ctx.rng.randrange(1 << 30), i % gen.nfeats(FEATS, ctx)) for i in range(n)]
+    susp = [(ctx.rng.randrange(1 << 30), i % gen.nfeats(FEATS_SUSP, ctx)) for i in range(ctx.pick(480, 12000))]
+    hs = [ctx.rng.randrange(1 << 30) for _ in range(ctx.pick(96, 3000))]
+    ctx.shard([{"items": items[i::16], "susp": susp[i::16], "houses": hs[i::16]} for i in range(16)], timeout=ctx.pick(300, 1500))
+    for k, v in {"aux_activations": 100, "aux_runs_checked": 100, "aux_recurs_checked": 100, "aux_exits_checked": 100,
+                 "done_need_any": 10, "done_need_all": 10, "done_need_named": 10, "shared_original_reused": 10,
+                 "sem_condaux_truncated": 10, "sem_transition_while_suspended": 3,
+                 "clone_aux_activations_checked": 40, "clone_in_an_earlier_house": 15, "several_houses_rear": 15}.items():
+        ctx.floor(k, v)
